@@ -184,19 +184,81 @@ def enc_t(t):
         [[[enc(x) for x in row] for row in mat] for mat in t.tolist()]
 
 
+def idx_arg(q, idx):
+    """the index argument in the form the query asks for: python int, 0-dim tensor, 1-element tensor (scalars); int64 /
+    int32 vector"""
+    form = q.get("idx_form", "int")
+    if isinstance(idx, list):
+        return torch.tensor(idx, dtype=torch.int32 if form == "i32" else torch.long)
+    if form == "t0":
+        return torch.tensor(idx)
+    if form == "t0i32":
+        return torch.tensor(idx, dtype=torch.int32)
+    if form == "t1":
+        return torch.tensor([idx])
+    return idx
+
+
+def idx_result(r):
+    """lm(hist, idx=...) returns the pair (log-probabilities, next state); anything else is not the documented result
+    (a full (T+1, B, V) tensor indexed with [0] would pass for the idx=0 answer)"""
+    if not (isinstance(r, tuple) and len(r) == 2 and isinstance(r[0], torch.Tensor) and isinstance(r[1], dict)):
+        raise TypeError("lm(hist, idx=...) did not return (tensor, dict)")
+    return r[0]
+
+
+def full_result(r):
+    if not isinstance(r, torch.Tensor):
+        raise TypeError("lm(hist) did not return a tensor")
+    return r
+
+
 def run_query(lm, q):
-    """canonical implementation output of one query, or 'exc:<kind>'"""
+    """canonical implementation output of one query, or 'exc:<kind>'.  q['call'] picks the public entry point:
+    kw = lm(h, idx=i); pos = lm(h, None, i) (what the library's own tests do); prev = an explicit state dict;
+    method = calc_idx_log_probs / calc_full_log_probs directly (valid queries only)"""
     h = as_layout(ht(q["hist"], q["B"]), q.get("layout"))
+    if q.get("hdtype") == "i32":
+        h = h.int()
+    before = h.clone()
+    call = q.get("call", "kw")
+    T = len(q["hist"])
     try:
         if q.get("chunk") is not None:
-            return enc_t(lm.calc_full_log_probs_chunked(h, dict(), q["chunk"]))
-        idx = q["idx"]
-        if idx is None:
-            return enc_t(lm(h))
-        if isinstance(idx, list):
-            idx = torch.tensor(idx, dtype=torch.long)
-        out, nxt = lm(h, idx=idx)
-        return enc_t(out)
+            if call == "kw":
+                out = lm.calc_full_log_probs_chunked(hist=h, prev=dict(), chunk_size=q["chunk"])
+            elif call == "default" and q["chunk"] == 1:
+                out = lm.calc_full_log_probs_chunked(h, dict())
+            else:
+                out = lm.calc_full_log_probs_chunked(h, dict(), q["chunk"])
+            out = enc_t(full_result(out))
+        elif q["idx"] is None:
+            if call == "pos":
+                out = lm(h, None, None)
+            elif call == "prev":
+                out = lm(h, dict())
+            elif call == "method":
+                out = lm.calc_full_log_probs(h, dict())
+            else:
+                out = lm(h)
+            out = enc_t(full_result(out))
+        else:
+            idx = idx_arg(q, q["idx"])
+            if call == "method" and query_valid(q):
+                norm = [i % (T + 1) for i in q["idx"]] if isinstance(q["idx"], list) else q["idx"] % (T + 1)
+                if isinstance(norm, list) and len(norm) == 1:
+                    norm = norm[0]
+                r = lm.calc_idx_log_probs(h, dict(), torch.tensor(norm))
+            elif call == "pos":
+                r = lm(h, None, idx)
+            elif call == "prev":
+                r = lm(h, dict(), idx=idx)
+            else:
+                r = lm(h, idx=idx)
+            out = enc_t(idx_result(r))
+        if not torch.equal(before, h):
+            return "exc:history-modified-in-place"
+        return out
     except Exception as e:  # noqa: BLE001
         return "exc:" + exc_kind(e)
 
@@ -211,19 +273,35 @@ def reload(case, lm, through_file):
         f.seek(0)
         sd = torch.load(f)
     lm2 = LookupLanguageModel(case["V"], case["sos"])
+    if case.get("detour", (len(case["dicts"]) + len(case["dicts"][-1])) % 2 == 1):
+        # the receiving instance has held other tables before (a unigram model, then a two-entry bigram model: smaller shape constants than most tables): load_state_dict
+        # resizes the buffers and re-infers the shape constants every time
+        toks = toks_of(case["V"], case["sos"])
+        other = [LookupLanguageModel(case["V"], case["sos"], [{t: -1.0 for t in range(case["V"])}]),
+                 LookupLanguageModel(case["V"], case["sos"], [{t: (-1.0, -0.5) for t in toks},
+                                                                {(a, toks[0]): -2.0 for a in toks[-2:]}])]
+        for o in other:
+            lm2.load_state_dict(o.state_dict())
     lm2.load_state_dict(sd)
     return lm2
 
 
 def metamorphic(case, lm, lm2):
     """the relations the property states, on the implementation alone.  Returns a list of
-    (what, detail) for every broken one."""
+    (what, detail) for every broken one.  Every all-positions query gets the basic battery (every chunk size, every
+    index as int / negative int / 0-dim tensor, three per-element patterns, the reloaded model, every layout); the first
+    one of a case additionally gets the entry-point / call-history battery, whose variants rotate with the position
+    and the query so that a run covers all of them on every kind of position at a bounded cost."""
     bad = []
     V = case["V"]
+    rich_done = False
     for q in case["queries"]:
         if q.get("chunk") is not None or q["idx"] is not None:
             continue
         h, T, B = ht(q["hist"], q["B"]), len(q["hist"]), q["B"]
+        rich, rich_done = not rich_done, True
+        rot = T + B + len(case["dicts"][-1])
+        where = dict(hist=q["hist"], B=B)
         try:
             full = lm(h)
             if full.shape != (T + 1, B, V):
@@ -232,33 +310,74 @@ def metamorphic(case, lm, lm2):
             for c in sorted({1, 2, 3, max(T, 1), T + 1, T + 4}):
                 got = lm.calc_full_log_probs_chunked(h, dict(), c)
                 if not torch.equal(got, full):
-                    bad.append(("chunk_size=%d differs from chunk_size=1" % c, dict(hist=q["hist"], B=B)))
+                    bad.append(("chunk_size=%d differs from chunk_size=1" % c, where))
             for i in range(T + 1):
-                a = lm(h, idx=i)[0]
-                n = lm(h, idx=i - T - 1)[0]
-                t = lm(h, idx=torch.tensor(i))[0]
-                if not (torch.equal(a, full[i]) and torch.equal(n, full[i]) and torch.equal(t, full[i])):
-                    bad.append(("idx=%d differs from the all-positions result" % i, dict(hist=q["hist"], B=B)))
+                # a scalar index anywhere in the history (not only at its end), in the forms a caller may use
+                forms = [("int", lambda: lm(h, idx=i)), ("negative int", lambda: lm(h, idx=i - T - 1)),
+                         ("0-dim tensor", lambda: lm(h, idx=torch.tensor(i)))]
+                extra = [("1-element tensor", lambda: lm(h, idx=torch.tensor([i]))), ("positional int", lambda: lm(h, None, i)),
+                         ("int32 0-dim tensor", lambda: lm(h, dict(), torch.tensor(i, dtype=torch.int32))),
+                         ("calc_idx_log_probs", lambda: lm.calc_idx_log_probs(h, dict(), torch.tensor(i))),
+                         ("negative 1-element tensor", lambda: lm(h, idx=torch.tensor([i - T - 1])))]
+                if B > 1:
+                    extra.append(("constant vector", lambda: lm(h, idx=torch.full((B,), i, dtype=torch.long))))
+                if rich:
+                    forms += [extra[0], extra[(rot + i) % (len(extra) - 1) + 1]]
+                for name, f in forms:
+                    if not torch.equal(idx_result(f()), full[i]):
+                        bad.append(("idx=%d (%s) of a length-%d history differs from the all-positions result" % (i, name, T), where))
             # a different index per batch element: a few deterministic patterns
             for pat in range(3):
                 ix = [(b * (pat + 1) + pat) % (T + 1) for b in range(B)]
-                out = lm(h, idx=torch.tensor(ix, dtype=torch.long))[0]
+                out = idx_result(lm(h, idx=torch.tensor(ix, dtype=torch.int32 if rich and pat == rot % 3 else torch.long)))
                 want = torch.stack([full[ix[b], b] for b in range(B)])
                 if not torch.equal(out, want):
                     bad.append(("per-element idx differs from the all-positions result", dict(hist=q["hist"], B=B, idx=ix)))
             if lm2 is not None and not torch.equal(lm2(h), full):
-                bad.append(("reloaded model differs", dict(hist=q["hist"], B=B)))
+                bad.append(("reloaded model differs", where))
+            if rich:
+                alt = [("lm(hist, {})", lambda: lm(h, dict())), ("calc_full_log_probs", lambda: lm.calc_full_log_probs(h, dict())),
+                       ("an int32 history", lambda: lm(h.int())), ("lm(hist, None, None)", lambda: lm(h, None, None))][rot % 4]
+                if not torch.equal(full_result(alt[1]()), full):
+                    bad.append((alt[0] + " differs from lm(hist)", where))
+            if rich and T:
+                # call history: the SAME tensor object overwritten in place and passed again; one state dict object reused
+                h2, P = h.clone(), dict()
+                r1 = lm(h2, P)
+                other = torch.flip(h, [0, 1]) if B > 1 or T > 1 else torch.full_like(h, case["sos"])
+                h2.copy_(other)
+                r2, r3 = lm(h2, P), lm(h2, P, idx=T)
+                want = lm(other.clone())
+                if not (torch.equal(r1, full) and torch.equal(r2, want) and torch.equal(idx_result(r3), want[T]) and torch.equal(h2, other)):
+                    bad.append(("a history tensor overwritten in place and passed again gives a stale / different result",
+                                dict(hist=q["hist"], B=B, then=other.tolist())))
+                if not torch.equal(lm(h), full):
+                    bad.append(("the same history gives another result after other calls", where))
             # the result is a function of the history's contents, not of its memory layout
-            for lay in LAYOUTS[1:]:
+            for li, lay in enumerate(LAYOUTS[1:]):
                 hv = as_layout(h, lay)
+                keep = hv.clone()
+                det = dict(hist=q["hist"], B=B, layout=lay)
                 if not torch.equal(lm(hv), full):
-                    bad.append(("history passed as a %s view differs from the contiguous one" % lay,
-                                dict(hist=q["hist"], B=B, layout=lay)))
-                elif T and not torch.equal(lm(hv, idx=T)[0], full[T]):
-                    bad.append(("idx=%d on a %s view differs from the contiguous one" % (T, lay),
-                                dict(hist=q["hist"], B=B, layout=lay)))
+                    bad.append(("history passed as a %s view differs from the contiguous one" % lay, det))
+                    continue
+                if T and not torch.equal(idx_result(lm(hv, idx=T)), full[T]):
+                    bad.append(("idx=%d on a %s view differs from the contiguous one" % (T, lay), det))
+                if rich and T:
+                    i = (rot + li) % T   # strictly inside the history
+                    arg = [i, torch.tensor([i]), torch.tensor(i), i - T - 1][(rot + li) % 4]
+                    if not torch.equal(idx_result(lm(hv, idx=arg)), full[i]):
+                        bad.append(("idx=%d (inside the history) on a %s view differs from the contiguous one" % (i, lay), det))
+                    if B > 1 and (rot + li) % 2 == 0:
+                        ix = [(b + 1 + li) % (T + 1) for b in range(B)]
+                        if not torch.equal(idx_result(lm(hv, idx=torch.tensor(ix))), torch.stack([full[ix[b], b] for b in range(B)])):
+                            bad.append(("per-element idx on a %s view differs from the contiguous one" % lay, dict(det, idx=ix)))
+                    elif not torch.equal(lm.calc_full_log_probs_chunked(hv, dict(), 2 + li % 2), full):
+                        bad.append(("chunked evaluation on a %s view differs from the contiguous one" % lay, det))
+                if not torch.equal(hv, keep):
+                    bad.append(("a %s view was modified in place by the call" % lay, det))
         except Exception as e:  # noqa: BLE001
-            bad.append(("exception " + exc_kind(e) + ": " + str(e)[:200], dict(hist=q["hist"], B=B)))
+            bad.append(("exception " + exc_kind(e) + ": " + str(e)[:200], where))
     return bad
 
 
@@ -322,7 +441,17 @@ def gen_queries(rng, case, nq=4):
                             dict(hist=hist, B=B, idx=[0] * (B + 1)), dict(hist=hist, B=B, idx=None, chunk=0)])
         if T and rng.random() < 0.4:
             q["layout"] = rng.choice(LAYOUTS[1:])
+        q["call"] = rng.choice(["kw", "kw", "pos", "prev", "method", "default"])
+        if q.get("idx") is not None:
+            q["idx_form"] = rng.choice(["i64", "i64", "i32"]) if isinstance(q["idx"], list) else rng.choice(["int", "int", "t0", "t1", "t0i32"])
+        if rng.random() < 0.2:
+            q["hdtype"] = "i32"
         qs.append(q)
+    # a scalar index strictly inside a longer history, in each of its three forms
+    T, B = rng.randint(2, 6), rng.randint(1, 3)
+    hist = [[rng.choice(toks) for _ in range(B)] for _ in range(T)]
+    qs.append(dict(hist=hist, B=B, idx=rng.randint(0, T - 1) - rng.choice([0, T + 1]), idx_form=rng.choice(["int", "t0", "t1"]),
+                   call=rng.choice(["kw", "pos", "prev"])))
     return qs
 
 
@@ -347,7 +476,8 @@ def gen_table(rng):
             ents.append([list(k), p, 0 if n == N else b])
         rng.shuffle(ents)
         dicts.append(ents)
-    case = dict(kind="lm", V=V, sos=sos, dicts=dicts, opt=rng.choice([0, 0, 0, 1, 1, 2, 3]))
+    case = dict(kind="lm", V=V, sos=sos, dicts=dicts, opt=rng.choice([0, 0, 0, 1, 1, 2, 3]), script=rng.choice([False] * 13 + [True, "reloaded"]),
+                detour=rng.random() < 0.5)
     case["queries"] = gen_queries(rng, case)
     return case
 
@@ -559,6 +689,26 @@ def run_table(case, meta=True):
     for q, o in zip(case["queries"], res["outs"]):
         if query_valid(q) and isinstance(o, str):
             res["meta"].append(("valid query raised " + o, q))
+    if lm2 is not None:
+        # the reloaded instance (which may have held other tables before, see reload) answers every query alike
+        for q, o in zip(case["queries"], res["outs"]):
+            o2 = run_query(lm2, q)
+            if o2 != o and not (isinstance(o2, str) and isinstance(o, str)):
+                res["meta"].append(("the reloaded model answers a query differently", q))
+    if case.get("script"):
+        # the module under torch.jit.script (the library documents and tests this entry point): same answers, query by
+        # query (keyword-only spellings are called positionally: a scripted forward takes (hist, prev, idx))
+        try:
+            slm = torch.jit.script(lm2 if (lm2 is not None and case.get("script") == "reloaded") else lm)
+            for q, o in zip(case["queries"], res["outs"]):
+                q2 = dict(q, call={"kw": "pos", "default": "pos"}.get(q.get("call", "kw"), q.get("call")))
+                if q.get("chunk") is not None:
+                    q2["call"] = "pos"
+                so = run_query(slm, q2)
+                if so != o and not (isinstance(so, str) and isinstance(o, str)):
+                    res["meta"].append(("the scripted module answers differently from the eager one: %r" % (so if isinstance(so, str) else "values differ"), q))
+        except Exception as e:  # noqa: BLE001
+            res["meta"].append(("torch.jit.script(module) raised " + exc_kind(e) + ": " + str(e)[:200], None))
     if meta:
         res["meta"] += metamorphic(case, lm, lm2)
     return res
@@ -855,21 +1005,86 @@ def arpa_term(case, out):
 # the very large table (offsets beyond int16): implementation vs the Python reference only
 # ----------------------------------------------------------------------------------------
 
-def huge_table_check(chk, seed, nbig):
+def py_bigram_lookup(b, U, z, w):
+    """read P(w | z) out of the ACTUAL buffers the way the forward pass navigates them (order 2): the children of
+    unigram node w occupy [w + offsets[w], w + 1 + offsets[w + 1]); ids / logps of level 2 are shifted by U"""
+    lo, hi = w + b["offsets"][w], w + 1 + b["offsets"][w + 1]
+    hits = [pos for pos in range(lo, hi) if b["ids"][pos - U] == z]
+    return (hi - lo, [b["logps"][pos] for pos in hits])
+
+
+def int16_boundary_check(chk, V, nbig, sos):
+    """offsets dtype at the int16 limit, implementation side only (the table is far too wide to query: the forward pass
+    allocates B*V*max_direct_descendants cells): V unigrams (+1 if sos is outside) and nbig bigrams (w, 0), all children
+    of unigram node 0, so the largest offset written is S + nbig in {32766, 32767, 32768}.  The constructor must not
+    raise, no offset may have wrapped, every listed bigram must be found at its place with its value, the other
+    unigrams must have no children, and save/load must reproduce buffers and shape."""
+    case = dict(kind="lm", V=V, sos=sos, dicts=[[[[0], -8, -4]], [[[w, 0], val_of_key((w % 97, 0)), 0] for w in range(nbig)]], detour=False)
+    rec = {"case": dict(kind="int16-boundary", V=V, nbig=nbig, sos=sos)}
+    S = V + (0 if 0 <= sos < V else 1)
+    chk.note_case(rec["case"], True, "int16-boundary")
+    try:
+        lm = build(case)
+        b = bufs_of(lm)
+        U = S + 1
+        why = None
+        if min(b["offsets"]) < 0 or max(b["offsets"]) != S + nbig:
+            why = "offsets wrapped or misplaced: min %d, max %d, expected max %d" % (min(b["offsets"]), max(b["offsets"]), S + nbig)
+        elif (b["N"], b["G"], b["S"]) != (2, nbig, nbig):
+            why = "shape constants %r, expected (2, %d, %d)" % ((b["N"], b["G"], b["S"]), nbig, nbig)
+        else:
+            n0, _ = py_bigram_lookup(b, U, 0, 0)
+            if n0 != nbig:
+                why = "unigram 0 has %d children in the buffers, %d listed" % (n0, nbig)
+            for w in list(range(0, nbig, 997)) + [nbig - 1, nbig - 2]:
+                _, got = py_bigram_lookup(b, U, w, 0)
+                if got != [val_of_key((w % 97, 0))]:
+                    why = "bigram (%d, 0): buffers hold %r, table says %r" % (w, got, val_of_key((w % 97, 0)))
+            for w in (1, 2, S // 2, S - 1):
+                if py_bigram_lookup(b, U, 0, w)[0] != 0:
+                    why = "childless unigram %d has children in the buffers" % w
+        if why is None:
+            lm2 = reload(case, lm, False)
+            b2 = bufs_of(lm2)
+            if any(b2[k] != b[k] for k in ("offsets", "ids", "logps", "logbs", "N", "G", "S")):
+                why = "save/load changed the buffers or the inferred shape"
+        chk.count("int16-boundary:offsets_width=%d" % b["ow"])
+        chk.extra.setdefault("int16_boundary", []).append(dict(V=V, bigrams=nbig, sos=sos, max_offset=max(b["offsets"]), offsets_width=b["ow"], ok=why is None))
+    except Exception as e:  # noqa: BLE001
+        why = "exception " + exc_kind(e) + ": " + str(e)[:200]
+    if why is not None:
+        rec["what"] = "table whose largest trie offset is %d (int16 limit 32767): %s" % (S + nbig, why)
+        chk.report(rec)
+
+
+def huge_table_check(chk, seed, nbig, packed=None):
     import random
     rng = random.Random(int(seed) * 1000003 + nbig)   # self-contained, so a replay rebuilds the same table
     V = 256
     ks = set()
+    sos, nbig_arg = None, nbig
+    if packed is not None:
+        # the first `par` unigrams share all the children (each has some), the others have none, so the ACTUAL largest
+        # offset is (S + 1) + nbig - par = `packed` (32767 / 32768: the limit of the final narrowing of the offsets
+        # buffer) at a fan-out (<= 257) a query can afford
+        sos, par = V, 128
+        nbig = packed - (V + 2) + par
+        allz = list(range(V)) + [sos]
+        for w in range(par):
+            for z in allz[:nbig // par + (1 if w < nbig % par else 0)]:
+                ks.add((z, w))
     while len(ks) < nbig:
         ks.add((rng.randrange(V), rng.randrange(V)))
+    if sos is None:
+        sos = rng.choice([0, V])
     d2 = [[list(k), val_of_key(k), 0] for k in ks]
     d1 = [[[t], -(t % 37), -(t % 5)] for t in range(V)]
-    case = dict(kind="lm", V=V, sos=rng.choice([0, V]), dicts=[d1, d2], queries=[])
+    case = dict(kind="lm", V=V, sos=sos, dicts=[d1, d2], queries=[], detour=False)
     tab = {tuple(k): (p, b) for d in case["dicts"] for k, p, b in d}
     try:
         lm = build(case)
     except Exception as e:  # noqa: BLE001
-        chk.report({"case": dict(kind="huge", nbig=nbig, V=V, sos=case["sos"], seed=seed), "what":
+        chk.report({"case": dict(kind="huge", nbig=nbig_arg, V=V, sos=case["sos"], seed=seed, packed=packed), "what":
                     "constructor raised on a large valid table: " + exc_kind(e) + ": " + str(e)[:200]})
         return
     b = bufs_of(lm)
@@ -877,6 +1092,8 @@ def huge_table_check(chk, seed, nbig):
     chk.count("huge:ids_width=%d" % b["iw"])
     toks = list(range(V)) + [case["sos"]]
     pairs = [list(k) for k in list(ks)[:40]] + [[rng.choice(toks), rng.choice(toks)] for _ in range(40)]
+    if packed is not None:  # contexts around the node that carries the largest offset
+        pairs += [[z, w] for w in (0, 1, 126, 127, 128, 129, V - 1) for z in (0, 1, 100, 253, 254, 255, V)]
     hist = [[p[0] for p in pairs], [p[1] for p in pairs]]
     ok, why = True, ""
     try:
@@ -894,13 +1111,15 @@ def huge_table_check(chk, seed, nbig):
                             ctx, v, enc(full[i, bi, v].item()), py_katz(tab, ctx, v))
     except Exception as e:  # noqa: BLE001
         ok, why = False, "exception " + exc_kind(e) + ": " + str(e)[:200]
+    if packed is not None and ok and max(b["offsets"]) != packed:
+        chk.notes.append("C06 packed table: largest offset is %d, the generator aimed at %d" % (max(b["offsets"]), packed))
     chk.extra.setdefault("huge_tables", []).append(dict(bigrams=nbig, max_offset=max(b["offsets"]), offsets_width=b["ow"], ids_width=b["iw"],
                                    agrees_with_python_reference=ok,
                                    note="too large for vm_compute: checked against the harness's Python recursion only"))
-    chk.note_case(dict(kind="huge", nbig=nbig, V=V, sos=case["sos"]), True, "huge")
+    chk.note_case(dict(kind="huge", nbig=nbig, V=V, sos=case["sos"], packed=packed), True, "huge")
     if not ok:
-        chk.report({"case": dict(kind="huge", nbig=nbig, V=V, sos=case["sos"], seed=seed),
-                    "what": "large table (offsets beyond int16): " + why})
+        chk.report({"case": dict(kind="huge", nbig=nbig_arg, V=V, sos=case["sos"], seed=seed, packed=packed),
+                    "what": "large table (offsets around / beyond int16): " + why})
 
 
 # ----------------------------------------------------------------------------------------
@@ -956,7 +1175,10 @@ def run(chk, cases=None):
         "model of _build_trie, (3) fed to the model of load_state_dict's shape inference; every query (all positions / "
         "chunked / scalar idx / per-element idx / invalid idx) is compared bit-exactly with the model run on those buffers "
         "AND with Spec.katz on the table; chunk sizes, every idx, negative idx, per-element idx and save/load are also "
-        "compared on the implementation itself. arpa case = file text; parse_arpa_lm vs Model.parse_arpa on classified "
+        "compared on the implementation itself; queries vary the entry point (keyword / positional / explicit prev / calc_* methods), the "
+        "form of the index (int, 0-dim, 1-element, int32), the history's layout and dtype, and a slice of tables is also run under "
+        "torch.jit.script; the history must be unchanged by the call; the reloaded instance (which may have held other tables) answers "
+        "every query; int16 offsets limit: constructor + buffers + save/load only (too wide to query). arpa case = file text; parse_arpa_lm vs Model.parse_arpa on classified "
         "lines. non-trivial = order >= 2 (lm) or any arpa case")
     chk.assumptions += [
         "log-probabilities/back-offs are multiples of 1/8 (or -inf): float32 sums are exact, so IEEE rounding is not modelled",
@@ -1047,6 +1269,10 @@ def run(chk, cases=None):
     if not replaying:
         huge_table_check(chk, chk.seed, chk.rng.choice([32765, 32766, 32767]))  # int16 / int32 boundary of the offsets
         huge_table_check(chk, chk.seed, 32800)                                  # well inside int32
+        huge_table_check(chk, chk.seed, 0, packed=chk.rng.choice([32767, 32768]))  # largest ACTUAL offset at the int16 limit
+        # S + T - 1 in {32766, 32767}; sos inside / outside the vocabulary alternate with the seed
+        for V, nbig, sos in (((16384, 16383, 0), (16383, 16384, 16383)) if chk.seed % 2 else ((16383, 16383, 16383), (16384, 16384, 0))):
+            int16_boundary_check(chk, V, nbig, sos)
 
 
 def replay(chk, path):
@@ -1054,6 +1280,9 @@ def replay(chk, path):
     case = rec["case"]
     case.pop("stream", None)
     if case.get("kind") == "huge":
-        huge_table_check(chk, case.get("seed", 0), case["nbig"])
+        huge_table_check(chk, case.get("seed", 0), case["nbig"], case.get("packed"))
+        return
+    if case.get("kind") == "int16-boundary":
+        int16_boundary_check(chk, case["V"], case["nbig"], case["sos"])
         return
     run(chk, [(case, "replay")])
